@@ -89,14 +89,29 @@ func spaces(c *core.Ctx, rng *rand.Rand) []Space {
 	}
 	var out []Space
 	// S1: embedding depth, shadowing, ambiguity, receiver kinds - one method name,
-	// every declaration/embedding pattern over 3 (thorough: 4) types, exhaustively
+	// every declaration/embedding pattern over 3 types, exhaustively
 	{
-		nt := c.Pick(3, 4)
 		sp := Space{Label: "depth", Mode: "exh", Names: []string{"M"}, Rooted: true, Samples: [][]TypeDecl{}, Nunits: 1,
 			Ifaces: []Iface{named("main", []string{"M"}), anon("main", []string{"M"})}}
-		for i := 0; i < nt; i++ {
+		for i := 0; i < 3; i++ {
 			sp.Slots = append(sp.Slots, slot([]string{string(rune('A' + i))}, mainOnly, allDecls(1)))
 		}
+		out = append(out, sp)
+	}
+	// S1b (thorough): four types - chains of depth 3, diamonds, shadowing over three levels
+	if c.Thorough() {
+		sp := Space{Label: "depth4", Mode: "exh", Names: []string{"M"}, Rooted: true, Samples: [][]TypeDecl{}, Nunits: 1,
+			Ifaces: []Iface{named("main", []string{"M"}), anon("main", []string{"M"})}}
+		vp, v, all := []string{"v", "p"}, []string{"-", "v"}, []string{"-", "v", "p"}
+		sp.Slots = []Slot{
+			slot([]string{"A"}, mainOnly, [][]string{{"-"}}),
+			slot([]string{"B"}, mainOnly, allDecls(1)),
+			slot([]string{"C"}, mainOnly, allDecls(1)),
+			slot([]string{"D"}, mainOnly, [][]string{{"v"}, {"p"}}),
+		}
+		sp.Slots[0].Embt = [][]string{vp, v, v}
+		sp.Slots[1].Embt = [][]string{v, all}
+		sp.Slots[2].Embt = [][]string{v}
 		out = append(out, sp)
 	}
 	// S2: scopes - two types, one unexported method name, every placement in
@@ -120,7 +135,7 @@ func spaces(c *core.Ctx, rng *rand.Rand) []Space {
 		no := []string{"-"}
 		sp.Slots = []Slot{
 			slot([]string{"T"}, [][2]string{scF, scPa}, [][]string{{"-"}}),
-			slot([]string{"T"}, [][2]string{scG, scPb, scMain}, [][]string{{"-"}}),
+			slot([]string{"T"}, [][2]string{scG, scPb}, [][]string{{"-"}}),
 			slot([]string{"A"}, [][2]string{scPb}, [][]string{{"v"}, {"p"}}),
 			slot([]string{"B"}, [][2]string{scPb}, [][]string{{"-"}, {"v"}}),
 		}
@@ -129,6 +144,7 @@ func spaces(c *core.Ctx, rng *rand.Rand) []Space {
 		sp.Slots[2].Embt = [][]string{no}
 		if c.Thorough() {
 			sp.Slots[0].Scopes = [][2]string{scF, scPa, scMain}
+			sp.Slots[1].Scopes = [][2]string{scG, scPb, scMain}
 			sp.Slots[0].Embt = [][]string{no, vp, v}
 			sp.Slots[2].Decls = allDecls(1)
 			sp.Slots[2].Embt = [][]string{v}
@@ -153,7 +169,7 @@ func spaces(c *core.Ctx, rng *rand.Rand) []Space {
 		for i := 0; i < 4; i++ {
 			sp.Slots = append(sp.Slots, slot(tn, all, allDecls(3), "asc", "desc"))
 		}
-		n := c.Pick(260, 16000)
+		n := c.Pick(150, 3000)
 		seen := map[string]bool{}
 		for len(sp.Samples) < n {
 			ts := sampleFamily(rng, &sp)
@@ -207,6 +223,12 @@ func Run(c *core.Ctx, pool *gjs.Pool) {
 	c.Assumef("embedding is acyclic and at most 3 deep; embedded interfaces inside structs, generic types and non-struct named types with methods are not enumerated")
 	c.Assumef("programs observe themselves with println of bools, small ints and ASCII strings; of a failed assertion's panic message only the missing method name is compared")
 	rng := rand.New(rand.NewSource(c.Seed))
+	// The guard programs are compiled without optimisation and inlining: the reference
+	// toolchain spends most of its time optimising tens of thousands of generated
+	// lines; the flags do not change what a Go program means.
+	if gf := os.Getenv("GOFLAGS"); !strings.Contains(gf, "-gcflags") {
+		os.Setenv("GOFLAGS", strings.TrimSpace(gf+" '-gcflags=vp/...=-N -l'"))
+	}
 	var p Params
 	if dir := os.Getenv("VERIF_REPLAY"); dir != "" {
 		b, err := os.ReadFile(filepath.Join(dir, "params.json"))
@@ -304,7 +326,7 @@ func decide(c *core.Ctx, pool *gjs.Pool, p *Params) {
 	c.Set("rule", "TLC enumerates families (named struct types x declared methods/receivers x embedding edges x scopes) of the spaces in c09_params.json; a case = one family with its full tables (assert x2 forms, two type switches, dispatch probes in 9 call forms, == on 5 values per type); distinct = distinct families; non-trivial = every family (each has at least one method or embedding edge probed); evaluations = compared table cells")
 
 	// ---- batches of families
-	per := 40
+	per := 64
 	var batches [][]*Table
 	for i := 0; i < len(tables); i += per {
 		j := i + per
@@ -456,32 +478,28 @@ type mismatch struct {
 
 func compareFamily(f *famProg, got []string, obs gjs.Obs) []mismatch {
 	var out []mismatch
-	if len(got) != len(f.cells) {
-		// the section stopped early (panic inside the family) or is missing
-		k := 0
-		for k < len(got) && k < len(f.cells) && got[k] == f.cells[k].want {
-			k++
-		}
-		c := cell{kind: "abort"}
-		g := fmt.Sprintf("section has %d lines, want %d (program end=%s %s)", len(got), len(f.cells), obs.End, obs.Msg)
-		if k < len(f.cells) {
-			c = f.cells[k]
-			c.kind = "abort:" + c.kind
-			if k < len(got) {
-				g = got[k] + " ... " + g
-			}
-		}
+	add := func(c cell, g string) {
 		m := mismatch{t: f.t, idx: f.idx, c: c, got: g, observed: got}
 		m.keys = classify(&m)
-		return []mismatch{m}
+		out = append(out, m)
 	}
-	for k := range got {
+	for k := 0; k < len(got) && k < len(f.cells); k++ {
 		if got[k] == f.cells[k].want {
 			continue
 		}
-		m := mismatch{t: f.t, idx: f.idx, c: f.cells[k], got: got[k], observed: got}
-		m.keys = classify(&m)
-		out = append(out, m)
+		add(f.cells[k], got[k])
+		if got[k] == "!panic" {
+			return out // the family panicked at this cell; the remaining cells were not produced
+		}
+	}
+	if len(got) != len(f.cells) {
+		// the section is missing or stops without a Go panic (JavaScript error, exit)
+		c := cell{kind: "abort"}
+		if len(got) < len(f.cells) {
+			c = f.cells[len(got)]
+			c.kind = "abort:" + c.kind
+		}
+		add(c, fmt.Sprintf("section has %d lines, want %d (program end=%s %s)", len(got), len(f.cells), obs.End, obs.Msg))
 	}
 	return out
 }
